@@ -243,6 +243,25 @@ def explore(chk, budget=1):
             got = [int(round(cnt[i].sum())) for i in range(cnt.shape[0])]
             if got != per_layer:
                 chk.fail('impl', '%s (mc=%s): COUNTS per energy layer %s, events inside image and layer %s' % (alg, mcflag, got, per_layer), dict(oracle=alg, mc=mcflag))
+        # ---------------------------------------------------------------- the same path, another file: a pipeline that overwrites its selection
+        # (same suffix) and bins it again in the same process gets the map of the file that is there now
+        for n2 in (int(g.integers(150, 400)),):
+            xpbin(path, 'CMAP', '--npix', 40, '--pixsize', 15.)
+            n = file_cols(path)['n']
+            path2 = build_file(g, d, n=n2, name=os.path.basename(path))
+            c2 = file_cols(path2)
+            o = xpbin(path2, 'CMAP', '--npix', 40, '--pixsize', 15.)
+            with fits.open(o) as h:
+                img = numpy.array(h[0].data)
+                hw = awcs.WCS(h[0].header)
+            px, py = hw.wcs_world2pix(c2['ra'], c2['dec'], 0)
+            n_in = int(((px > -0.5) & (px < 39.5) & (py > -0.5) & (py < 39.5)).sum())
+            with fits.open(path2) as h2:
+                nrows = len(h2['EVENTS'].data)           # read with astropy, not through the package
+            chk.case(dict(op='CMAP of a file rewritten at the same path', events=c2['n'], inside=n_in, previous_events=n), nontrivial=True)
+            if int(img.sum()) != n_in or int(img.sum()) > nrows or c2['n'] != nrows:
+                chk.fail('impl', 'CMAP of a file rewritten at the same path (%d rows, %d inside the image; the file binned before at that path had %d): image total %d' % (
+                    nrows, n_in, n, int(img.sum())), dict(oracle='CMAP-rewritten', events=c2['n'], previous=n))
     replies = drv.run()
     for desc, impl, k, build in jobs:
         idx = [int(x) for x in replies[k].split()]
